@@ -32,6 +32,14 @@ class Setup:
         self.ds = ds
         self.definitions = loaded['defs']
         self.views = loaded['ok']
+        # histories are written with the ids the *stated rules* give (C04's naive oracle). On the unchanged tree these are the ids the
+        # implementation computes; where they differ, writing by the rule turns the difference into wrong entity state, i.e. a concrete input
+        try:
+            rule = json.loads(json.dumps(defsets.expected_views(ds)))
+            if rule != json.loads(json.dumps(loaded['ok'])) and len(rule) == len(loaded['ok']):
+                self.views = rule
+        except Exception:
+            pass
         self.trees = xmltree.load_dir(self.base)
         self.load_req = xmltree.load_request('H', self.trees)
 
